@@ -21,7 +21,7 @@ CHECKS = {
    text="All strings up to length 3 over 16 representatives plus length 4 over 9 classes (quick) / length 5 (thorough), boundary lengths around every limit with 1- to 4-byte characters, long mixed-width strings, every code point below U+0180 in every slot of type / id / relation, random Unicode, through all 9 validators and the predicate (soundness and completeness); the single-field validators compared with the shared rule strings evaluated directly; rule strings compared with the JS and Java sources.",
    note="'identical to JS and Java' is decided on the rule strings as artefacts; JS/Java are not executed (cannot be built offline).", ref="5/C18"),
  "C19": dict(cat="translation_validation", tech="artefact conformance (ATN arrays, vocabularies, listener method set) + Earley recogniser on the .g4 vs. the real generated parser on generated and grammar-derived texts; parse-tree conformance monitor; token-by-token monitor of the real generated lexer against an executable reading of OpenFGALexer.g4 (longest match, first rule, modes)",
-   text="Serialized ATNs of Go/JS/Java/.interp decoded and compared and deserialized; sequences of state and prediction-decision numbers in the three generated parser sources compared; name tables compared with each other, the live recogniser and both .g4 files; every literal of the literal-only lexer rules lexed by the real lexer; for 10^4-10^5 texts incl. one shortest sentence per grammar production: grammar accepts <=> generated parser accepts, and every rule node of the tree the generated Go parser built is a derivation step of the .g4 (Earley on the tree grammar); every token (type, extent, channel) and every recognition error of the real generated lexer on those texts, on all strings up to length 2 over the grammar's boundary alphabet in both modes and on 10^4-10^5 random strings equals what OpenFGALexer.g4 on disk prescribes (10^6-10^7 tokens).",
+   text="Serialized ATNs of Go/JS/Java/.interp decoded and compared and deserialized; sequences of state and prediction-decision numbers in the three generated parser sources compared; name tables compared with each other, the live recogniser and both .g4 files; every literal of the literal-only lexer rules lexed by the real lexer; for 10^4-10^5 texts incl. one shortest sentence per grammar production: grammar accepts <=> generated parser accepts, and every rule node of the tree the generated Go parser built is a derivation step of the .g4 (Earley on the tree grammar); listener dispatch of every generated rule context and the rule-element labels compared across Go / TS / Java and with the grammar; every token (type, extent, channel) and every recognition error of the real generated lexer on those texts, on all strings up to length 2 over the grammar's boundary alphabet in both modes and on 10^4-10^5 random strings equals what OpenFGALexer.g4 on disk prescribes (10^6-10^7 tokens).",
    note="Trusted: .g4 readers, Earley recogniser and the executable lexer semantics (internal/g4); non-greedy lexer loops are not modelled (inputs reaching one are skipped and counted).", ref="5/C19"),
  "C01": dict(cat="exploration", tech="round-trip monitor d->M1->D1->M2->D2->M3->D3 on both API paths over generated, corpus and mutated DSL",
    text="Every accepted full-model text among 10^4-10^6 generated layouts, corpus files and accepted token-level mutants is pushed through render/parse three times on the in-memory and the JSON-string path; equality and byte stability are asserted on each.",
@@ -42,7 +42,7 @@ CHECKS = {
    text="Each generated file set is merged 12-40 times (map orders) and under every permutation of <=4 files; results and ordered error tuples compared.",
    note="Map iteration orders are sampled, not enumerated.", ref="5/C12"),
  "C14": dict(cat="exploration", tech="metamorphic monitor (repeats, JSON re-encodings, type shuffles) + documented-order predicate + comment-strip equality",
-   text="Output bytes compared across repeats, overlapping calls on one model, shuffled JSON encodings and type orders; order of types/relations/conditions/parameters checked against the documented rule; source-info variant stripped of comments must equal the plain output and parse to the same model.",
+   text="Output bytes (and, for models that cannot be rendered, the error) compared across repeats, overlapping calls on one model, shuffled JSON encodings and type orders; order of types/relations/conditions/parameters checked against the documented rule; source-info variant stripped of comments must equal the plain output and parse to the same model.",
    note="Trusted: order predicate written from the documentation; K4 (line break in a file name) recognised by its signature.", ref="5/C14"),
  "C16": dict(cat="exploration", tech="position monitors: bounds on every reported position, exact renderer marks for listener errors, declaration-site sets for merge conflicts (bug-compatible oracle for K2)",
    text="Bounds of every position in every error for 10^4-10^5 rejected inputs; exact position for 5 injection kinds under random layouts; merge-conflict file+line against the set of declaration sites (also the same clash in two files), column range on the declared name, deviations equal to the naive lookup counted as known finding K2.",
